@@ -273,6 +273,119 @@ JOINER_METHODS = ["on", "on_field", "using", "cross"]
 # other @builder methods: calls made from inside them must not be recorded as calls of the check
 OPAQUE_METHODS = ["join", "replace_table", "union", "union_all", "intersect", "except_of", "minus", "returning", "fetch_next"]
 
+
+# ------------------------------------------------------------------ CREATE TABLE builder (DDLBuilder.lean, driver op `cstep`)
+
+CREATE_METHODS = ["create_table", "temporary", "unlogged", "with_system_versioning", "if_not_exists", "columns", "period_for",
+                  "unique", "primary_key", "foreign_key", "as_select", "local", "preserve_rows"]
+
+
+def d_create(b):
+    from harness.props import c17
+    return c17.d_create(b)
+
+
+def _colname(c):
+    if isinstance(c, str):
+        return c
+    if isinstance(c, Q.Column):
+        return describe._optstr(c.name)
+    raise Unsupported("column %r" % type(c))
+
+
+def _tref_or_str(t):
+    if isinstance(t, str):
+        return {"name": t, "schema": [], "alias": None}
+    if isinstance(t, Q.Table):
+        if t._for or t._for_portion:
+            raise Unsupported("temporal table in DDL")
+        return describe.d_tref(t)
+    raise Unsupported("table %r" % type(t))
+
+
+def encode_create_call(b, name, args, kw):
+    a = list(args)
+    if name in ("temporary", "unlogged", "with_system_versioning", "if_not_exists", "local", "preserve_rows"):
+        if a or kw:
+            raise Unsupported(name + " signature")
+        return {"m": name}
+    if name == "create_table":
+        return {"m": name, "t": _tref_or_str(a[0] if a else kw["table"])}
+    if name == "columns":
+        if kw:
+            raise Unsupported("columns kwargs")
+        cs = []
+        for c in a:
+            if isinstance(c, str):
+                cs.append({"k": "name", "n": c})
+            elif isinstance(c, tuple):
+                if len(c) < 2 or not isinstance(c[0], str):
+                    raise Unsupported("column tuple")
+                cs.append({"k": "pair", "n": c[0], "t": str(c[1])})
+            elif isinstance(c, Q.Column):
+                cs.append({"k": "col", "c": {"name": describe._optstr(c.name), "type": None if c.type is None else str(c.type),
+                                             "nullable": c.nullable, "default": None if not c.default else describe.d_term(c.default)}})
+            else:
+                raise Unsupported("column %r" % type(c))
+        return {"m": "columns", "cs": cs}
+    if name == "period_for":
+        vals = dict(zip(["name", "start_column", "end_column"], a))
+        vals.update(kw)
+        return {"m": name, "name": describe._optstr(vals["name"]), "start": _colname(vals["start_column"]), "stop": _colname(vals["end_column"])}
+    if name in ("unique", "primary_key"):
+        if kw:
+            raise Unsupported(name + " kwargs")
+        return {"m": name, "cols": [_colname(c) for c in a]}
+    if name == "foreign_key":
+        vals = dict(zip(["columns", "reference_table", "reference_columns", "on_delete", "on_update"], a))
+        vals.update(kw)
+        od, ou = vals.get("on_delete"), vals.get("on_update")
+        return {"m": name, "cols": [_colname(c) for c in vals["columns"]], "ref": _tref_or_str(vals["reference_table"]),
+                "ref_cols": [_colname(c) for c in vals["reference_columns"]],
+                "on_delete": None if not od else od.value, "on_update": None if not ou else ou.value}
+    if name == "as_select":
+        qb = a[0] if a else kw.get("query_builder")
+        return {"m": name, "q": describe.d_query(qb) if isinstance(qb, Q.QueryBuilder) else None}
+    raise Unsupported("method %s" % name)
+
+
+def _wrap_create(cls, name):
+    orig = cls.__dict__[name]
+
+    def wrapper(self, *args, **kw):
+        if ACTIVE is None or _DEPTH[0] > 0 or len(ACTIVE) >= MAX_RECORDS or not isinstance(self, Q.CreateQueryBuilder):
+            _DEPTH[0] += 1
+            try:
+                return orig(self, *args, **kw)
+            finally:
+                _DEPTH[0] -= 1
+        rec = _Rec()
+        rec.skip = None
+        rec.label = "%s.%s" % (type(self).__name__, name)
+        rec.result = rec.exc = rec.pre = rec.call = None
+        rec.dialect = "create"
+        try:
+            rec.call = encode_create_call(self, name, args, kw)
+            rec.pre = d_create(self)
+        except Unsupported as e:
+            rec.skip = str(e)[:50]
+        except Exception as e:
+            rec.skip = "describe: %s" % type(e).__name__
+        ACTIVE.append(rec)
+        _DEPTH[0] += 1
+        try:
+            out = orig(self, *args, **kw)
+            rec.result = out
+            return out
+        except Exception as e:
+            rec.exc = type(e).__name__
+            raise
+        finally:
+            _DEPTH[0] -= 1
+    wrapper.__wrapped__ = orig
+    wrapper.__name__ = name
+    setattr(cls, name, wrapper)
+
 _INSTALLED = [False]
 
 
@@ -434,6 +547,10 @@ def install():
                 _wrap_opaque(cls, name)
     for name in JOINER_METHODS:
         _wrap_joiner(name)
+    for cls in (Q.CreateQueryBuilder, DI.VerticaCreateQueryBuilder):
+        for name in CREATE_METHODS:
+            if name in cls.__dict__:
+                _wrap_create(cls, name)
 
 
 @contextlib.contextmanager
@@ -462,6 +579,25 @@ class Recording:
             if rec.skip is not None or rec.call is None or rec.pre is None:
                 if stats is not None:
                     stats["bstep-skipped:" + (rec.skip or "?")[:30]] = stats.get("bstep-skipped:" + (rec.skip or "?")[:30], 0) + 1
+                continue
+            if rec.dialect == "create":
+                try:
+                    req = {"op": "cstep", "st": rec.pre, "calls": [rec.call]}
+                    if rec.exc is not None:
+                        exp = {"exc": rec.exc}
+                    elif isinstance(rec.result, Q.CreateQueryBuilder):
+                        req["post"] = d_create(rec.result)
+                        exp = {"agree": True}
+                    else:
+                        continue
+                except Unsupported as e:
+                    if stats is not None:
+                        k = "bstep-skipped:" + str(e)[:30]
+                        stats[k] = stats.get(k, 0) + 1
+                    continue
+                if stats is not None:
+                    stats[tag] = stats.get(tag, 0) + 1
+                out.append((req, exp, "model of %s vs the real call" % rec.label))
                 continue
             try:
                 ctx = describe.d_ctx({"dialect": rec.dialect})
